@@ -53,6 +53,38 @@ theorem blen_some_ne {c : Bytes} (hc : c ≠ []) : blen (some c) ≠ 0 := by
   | nil => exact absurd rfl hc
   | cons x xs => simp [blen]
 
+/-- a byte-string encoding starts with a major-type-2 head -/
+theorem bodyProtOK_of_enc {raw content : Bytes} (h : IsBstrEncoding raw content) :
+    bodyProtOK raw = true := by
+  obtain ⟨w, hf, rfl⟩ := h
+  cases hr : headBytes 2 w content.length ++ content with
+  | nil => cases w <;> simp [headBytes] at hr
+  | cons b0 rest =>
+    have := C02.first_major (by omega : 2 < 8) hf hr.symm
+    simp [bodyProtOK, this]
+
+theorem enc_length_lt {raw content : Bytes} (h : IsBstrEncoding raw content) :
+    content.length < 18446744073709551616 := by
+  obtain ⟨w, hf, -⟩ := h
+  exact Reencode.fits_lt hf
+
+theorem wfList_getElem : ∀ (xs : List Wire) (i : Nat) (h : i < xs.length),
+    Wire.wfList xs = true → xs[i].wf = true
+  | [], _, h, _ => absurd h (Nat.not_lt_zero _)
+  | x :: xs, 0, _, hw => by
+    simp only [Wire.wfList, Bool.and_eq_true] at hw
+    simpa using hw.1
+  | x :: xs, i + 1, h, hw => by
+    simp only [Wire.wfList, Bool.and_eq_true] at hw
+    simpa using wfList_getElem xs i (by simpa using h) hw.2
+
+/-- an accepted protected bucket that is a well-formed item is a byte-string encoding of its
+    content -/
+theorem protected_isBstrEncoding {p : Wire} {pm : GoMap} (hp : decProtected p = .ok pm)
+    (hwf : p.wf = true) : ∃ content, IsBstrEncoding p.bytes content := by
+  obtain ⟨hw, enc, rfl, -⟩ := C05.protected_is_bstr_of_map p pm hp
+  exact ⟨enc, isBstrEncoding_of_wf hwf⟩
+
 end Verifies
 
 /-! ### C07 — COSE_Sign1 -/
@@ -88,4 +120,435 @@ theorem wf_sign1_verifies (tagged : Bool) {p u pl : Wire} {hw hwp hwpl : HW}
     (Verifies.marshalProtected_raw (p := .bstr hwp content) rfl (C01.decProtected_modelled hp))
     henc hlen rfl
 
+/-- Detached payload (`nil` on the wire): after decoding, the verifier supplies the payload. -/
+theorem wf_sign1_detached_verifies (tagged : Bool) {p u pl : Wire} {hw hwp : HW}
+    {c content : Bytes} {pm um : GoMap}
+    (hwf : (Wire.arr .imm [p, u, pl, .bstr hw c]).wf = true)
+    (hlim : (Wire.arr .imm [p, u, pl, .bstr hw c]).inLimits false 0 = true)
+    (hp : decProtected p = .ok pm) (hu : decUnprot u = .ok um) (hiv : ensureIV pm um = true)
+    (hpw : p = .bstr hwp content) (hpl : pl = .prim .imm 22) (hc : c ≠ [])
+    (payload : Bytes) (ext : Option Bytes) (v : Verifier)
+    (hgate : ensureVerificationAlgorithm pm v.alg ext = .ok ())
+    (hsigned : v.verify (detEnc (sigStructure1 content (ext.getD []) payload)) c = .ok ()) :
+    ∃ m, Sign1.unmarshal tagged
+        ((if tagged then [0xd2] else []) ++ (Wire.arr .imm [p, u, pl, .bstr hw c]).bytes) = .ok m ∧
+      m.payload = none ∧
+      (Sign1.verify { m with payload := some payload } ext v).1 = .ok () := by
+  subst hpw hpl
+  have hpwf : (Wire.bstr hwp content).wf = true := by
+    simp only [Wire.wf, Wire.wfList, Bool.and_eq_true] at hwf
+    simpa [Wire.wf] using hwf.2.1
+  have henc := Verifies.isBstrEncoding_of_wf hpwf
+  have hlen : content.length < 18446744073709551616 := Verifies.enc_length_lt henc
+  refine ⟨_, wf_sign1_accepted_full tagged hwf hlim hp hu hiv (.inl rfl) hc, rfl, ?_⟩
+  rw [C03.verify1_iff]
+  refine ⟨rfl, Verifies.blen_some_ne hc, hgate, _, ?_, hsigned⟩
+  exact C02.tbs1_eq_rfc _ ext _ content payload
+    (Verifies.marshalProtected_raw (p := .bstr hwp content) rfl (C01.decProtected_modelled hp))
+    henc hlen rfl
+
+/-! ### C07 — COSE_Signature (one signer of a COSE_Sign) -/
+
+/-- A COSE_Signature `[p, u, sig]` inside a COSE_Sign whose body protected bucket arrived as
+    `bprot` (ANY byte-string encoding of `bodyContent`): if the signature is valid over the
+    RFC 9052 Sig_structure of (body protected content, signer protected content, external data,
+    payload), the decoded signer entry verifies. -/
+theorem wf_signature_verifies {p u : Wire} {hw hwp : HW} {c signContent : Bytes} {pm um : GoMap}
+    (hwf : (Wire.arr .imm [p, u, .bstr hw c]).wf = true)
+    (hlim : (Wire.arr .imm [p, u, .bstr hw c]).inLimits false 0 = true)
+    (hp : decProtected p = .ok pm) (hu : decUnprot u = .ok um) (hiv : ensureIV pm um = true)
+    (hpw : p = .bstr hwp signContent) (hc : c ≠ [])
+    (bprot bodyContent payload : Bytes) (hb : IsBstrEncoding bprot bodyContent)
+    (ext : Option Bytes) (v : Verifier)
+    (hgate : ensureVerificationAlgorithm pm v.alg ext = .ok ())
+    (hsigned : v.verify
+      (detEnc (sigStructure bodyContent signContent (ext.getD []) payload)) c = .ok ()) :
+    ∃ s, Signature.unmarshal (Wire.arr .imm [p, u, .bstr hw c]).bytes = .ok s ∧
+      (Signature.verify s v bprot (some payload) ext).1 = .ok () := by
+  subst hpw
+  have hpwf : (Wire.bstr hwp signContent).wf = true := by
+    simp only [Wire.wf, Wire.wfList, Bool.and_eq_true] at hwf
+    simpa [Wire.wf] using hwf.2.1
+  have henc := Verifies.isBstrEncoding_of_wf hpwf
+  refine ⟨_, wf_signature_accepted_full hwf hlim hp hu hiv hc, ?_⟩
+  rw [C03.verifySig_iff]
+  refine ⟨rfl, Verifies.blen_some_ne hc, Verifies.bodyProtOK_of_enc hb, hgate, _, ?_, hsigned⟩
+  exact C02.tbsSig_eq_rfc _ bprot (some payload) ext bodyContent _ signContent payload hb
+    (Verifies.enc_length_lt hb)
+    (Verifies.marshalProtected_raw (p := .bstr hwp signContent) rfl
+      (C01.decProtected_modelled hp))
+    henc (Verifies.enc_length_lt henc) rfl
+
+/-! ### C07 — COSE_Sign, any number of signers -/
+
+/-- A decoded COSE_Sign with attached payload verifies under verifiers `vs` as soon as, for every
+    signer `i`, the algorithm gate passes and `vs[i]` accepts the signer's signature over the
+    RFC 9052 Sig_structure built from the CONTENTS of the retained protected byte strings (body
+    and signer), the external data and the payload. -/
+theorem wf_sign_verifies (b : Bytes) (m : SignMsg) (hd : Sign.unmarshal b = .ok m)
+    (payload : Bytes) (hpl : m.payload = some payload)
+    (rawBody bodyContent : Bytes) (hrb : m.h.rawP = some rawBody)
+    (hbc : IsBstrEncoding rawBody bodyContent)
+    (ext : Option Bytes) (vs : List Verifier) (hlen : vs.length = m.sigs.length)
+    (hall : ∀ i (h1 : i < m.sigs.length) (h2 : i < vs.length),
+      ensureVerificationAlgorithm m.sigs[i].h.p vs[i].alg ext = .ok () ∧
+      ∃ rawSign signContent sig, m.sigs[i].h.rawP = some rawSign ∧
+        IsBstrEncoding rawSign signContent ∧ m.sigs[i].sig = some sig ∧
+        vs[i].verify (detEnc (sigStructure bodyContent signContent (ext.getD []) payload)) sig
+          = .ok ()) :
+    (Sign.verify m ext vs).1 = .ok () := by
+  obtain ⟨hw, hws, p, u, pl, sgs, -, -, -, -, -, -, hh, hne, hs⟩ := C05.sign_accept_envelope b m hd
+  obtain ⟨hpd, -, -, hrp, -⟩ := C09.decHeaders_ok hh
+  obtain ⟨hsl, hidx⟩ := C05.decSigList_ok sgs m.sigs hs
+  have hbody : marshalProtected m.h = .ok rawBody := by
+    have := Verifies.marshalProtected_raw hrp (C01.decProtected_modelled hpd)
+    rw [hrp] at hrb
+    cases hrb
+    exact this
+  rw [C11.signmsg_verify_iff]
+  refine ⟨by simp [hpl], ?_, hlen.symm, rawBody, hbody, ?_⟩
+  · intro he
+    rw [he] at hsl
+    cases sgs with
+    | nil => exact hne rfl
+    | cons x xs => simp at hsl
+  · intro i h1 h2
+    obtain ⟨hgate, rawSign, signContent, sig, hrs, hse, hsig, hsigned⟩ := hall i h1 h2
+    obtain ⟨pi, ui, sgi, -, hpi, -, -, hrpi, -, -, hz⟩ := hidx i (hsl ▸ h1) h1
+    have hmp : marshalProtected m.sigs[i].h = .ok rawSign := by
+      have := Verifies.marshalProtected_raw hrpi (C01.decProtected_modelled hpi)
+      rw [hrpi] at hrs
+      cases hrs
+      exact this
+    rw [C03.verifySig_iff]
+    refine ⟨by simp [hpl], hz, Verifies.bodyProtOK_of_enc hbc, hgate,
+      detEnc (sigStructure bodyContent signContent (ext.getD []) payload), ?_, ?_⟩
+    · exact C02.tbsSig_eq_rfc _ rawBody m.payload ext bodyContent rawSign signContent payload hbc
+        (Verifies.enc_length_lt hbc) hmp hse (Verifies.enc_length_lt hse) hpl
+    · rw [hsig]
+      exact hsigned
+
+/-- the hypotheses of `wf_sign_verifies` are satisfiable for every accepted COSE_Sign: the body
+    and every signer retained protected bytes that ARE a byte-string encoding of some content
+    (and every signer has a non-empty signature) -/
+theorem decoded_sign_protected_bstr (b : Bytes) (m : SignMsg) (hd : Sign.unmarshal b = .ok m) :
+    (∃ rawBody bodyContent, m.h.rawP = some rawBody ∧ IsBstrEncoding rawBody bodyContent) ∧
+    ∀ i (h1 : i < m.sigs.length), ∃ rawSign signContent sig,
+      m.sigs[i].h.rawP = some rawSign ∧ IsBstrEncoding rawSign signContent ∧
+      m.sigs[i].sig = some sig ∧ sig ≠ [] := by
+  obtain ⟨hw, hws, p, u, pl, sgs, -, -, hwf, -, -, -, hh, -, hs⟩ :=
+    C05.sign_accept_envelope b m hd
+  obtain ⟨hpd, -, -, hrp, -⟩ := C09.decHeaders_ok hh
+  obtain ⟨hsl, hidx⟩ := C05.decSigList_ok sgs m.sigs hs
+  simp only [Wire.wf, Wire.wfList, Bool.and_eq_true] at hwf
+  constructor
+  · obtain ⟨content, hc⟩ := Verifies.protected_isBstrEncoding hpd hwf.2.1
+    exact ⟨_, content, hrp, hc⟩
+  · intro i h1
+    have h1' : i < sgs.length := hsl ▸ h1
+    obtain ⟨pi, ui, sgi, hx, hpi, -, -, hrpi, -, hsg, hz⟩ := hidx i h1' h1
+    have hxwf := Verifies.wfList_getElem sgs i h1' hwf.2.2.2.2.1.2
+    rw [hx] at hxwf
+    simp only [Wire.wf, Wire.wfList, Bool.and_eq_true] at hxwf
+    obtain ⟨content, hc⟩ := Verifies.protected_isBstrEncoding hpi hxwf.2.1
+    obtain ⟨hw', c, -, hcne, hsome⟩ := Accept.wfsig_of_dec hsg hz
+    exact ⟨_, content, c, hrpi, hc, hsome, hcne⟩
+
 end C07
+
+/-! ### C13 — decode ⇒ encode (protected bucket) -/
+namespace C13
+
+/-- a key that, when it is a label at all, is its own normal form (`int64` in range, or text) -/
+def KeyNormal (k : GoVal) : Prop := normalizeLabel k = none ∨ normalizeLabel k = some k
+
+theorem wrap64_nat {n : Nat} (h : n ≤ maxInt64) : wrap64 (n : Int) = (n : Int) := by
+  unfold maxInt64 at h
+  unfold wrap64
+  simp only []
+  split <;> omega
+
+theorem wrap64_neg {n : Nat} (h : n ≤ maxInt64) : wrap64 (-1 - (n : Int)) = -1 - (n : Int) := by
+  unfold maxInt64 at h
+  unfold wrap64
+  simp only []
+  split <;> omega
+
+/-- the generic decoder produces integer keys only as in-range `int64` -/
+theorem decodeAny_keyNormal {w : Wire} {v : GoVal} (h : decodeAny w = .ok v) : KeyNormal v := by
+  cases w with
+  | uint hw n =>
+    unfold decodeAny at h
+    split at h
+    · rename_i hn
+      cases h
+      exact .inr (by simp [normalizeLabel, wrap64_nat hn])
+    · cases h
+  | nint hw n =>
+    unfold decodeAny at h
+    split at h
+    · rename_i hn
+      cases h
+      exact .inr (by simp [normalizeLabel, wrap64_neg hn])
+    · cases h
+  | bstr hw b => unfold decodeAny at h; cases h; exact .inl rfl
+  | tstr hw b =>
+    unfold decodeAny at h
+    split at h
+    · cases h; exact .inr rfl
+    · cases h
+  | tag hw t x => unfold decodeAny at h; cases h
+  | prim hw n =>
+    cases hw <;> unfold decodeAny at h
+    · split at h
+      · cases h; exact .inl rfl
+      · split at h
+        · cases h; exact .inl rfl
+        · split at h <;> cases h <;> exact .inl rfl
+    · cases h; exact .inl rfl
+    · cases h
+    · cases h
+    · cases h; exact .inl rfl
+  | arr hw xs =>
+    unfold decodeAny at h
+    cases hl : decodeList xs <;> simp [hl] at h
+    subst h; exact .inl rfl
+  | map hw kvs =>
+    unfold decodeAny at h
+    cases hl : decodePairs kvs [] <;> simp [hl] at h
+    subst h; exact .inl rfl
+
+/-- every key of a generically decoded map is in normal form -/
+theorem decodePairs_keys_normal : ∀ (kvs : List (Wire × Wire)) (acc out : GoMap),
+    decodePairs kvs acc = .ok out → (∀ e ∈ acc, KeyNormal e.1) → ∀ e ∈ out, KeyNormal e.1
+  | [], acc, out, h, hacc => by
+    unfold decodePairs at h; cases h
+    intro e he; exact hacc e (List.mem_reverse.mp he)
+  | (k, v) :: r, acc, out, h, hacc => by
+    unfold decodePairs at h
+    cases hk : decodeAny k with
+    | ok key =>
+      have hkn := decodeAny_keyNormal hk
+      simp only [hk] at h
+      split at h
+      · cases h
+      · cases h
+      · split at h
+        · cases h
+        · cases hv : decodeAny v with
+          | ok value =>
+            simp only [hv] at h
+            split at h
+            · cases h
+            · refine decodePairs_keys_normal r _ out h ?_
+              intro e he
+              rcases List.mem_cons.mp he with rfl | he
+              · exact hkn
+              · exact hacc e he
+          | err e => simp [hv] at h
+          | panic => simp [hv] at h
+          | unmodelled => simp [hv] at h
+    | err e => simp [hk] at h
+    | panic => simp [hk] at h
+    | unmodelled => simp [hk] at h
+
+/-- what the protected-bucket decoder accepts, keeping the generic decode of the inner map -/
+theorem decProtectedContent_ok {enc : Bytes} {m : GoMap} (h : decProtectedContent enc = .ok m) :
+    enc = [] ∧ m = [] ∨ ∃ hw kvs m0, parseTop true enc = some (.map hw kvs) ∧
+      decodePairs kvs [] = .ok m0 ∧ validateHeaderParameters m0 true = true ∧ m = castAlg m0 := by
+  unfold decProtectedContent at h
+  split at h
+  · left; cases h; exact ⟨rfl, rfl⟩
+  · right
+    split at h
+    · cases h
+    · split at h
+      · rename_i hw kvs hpt
+        cases hl : labelsOK kvs [] with
+        | ok u =>
+          cases hd : decodePairs kvs [] with
+          | ok m0 =>
+            simp only [hl, hd, bind, Out.bind] at h
+            by_cases hv : validateHeaderParameters m0 true = true
+            · simp only [hv, Bool.not_true, Bool.false_eq_true, if_false] at h
+              cases h; exact ⟨hw, kvs, m0, hpt, hd, hv, rfl⟩
+            · simp [hv] at h
+          | err e => simp [hl, hd, bind, Out.bind] at h
+          | panic => simp [hl, hd, bind, Out.bind] at h
+          | unmodelled => simp [hl, hd, bind, Out.bind] at h
+        | err e => simp [hl, bind, Out.bind] at h
+        | panic => simp [hl, bind, Out.bind] at h
+        | unmodelled => simp [hl, bind, Out.bind] at h
+      · cases h
+
+theorem normalize_lbl1 : normalizeLabel (lbl 1) = some (lbl 1) := by
+  have : wrap64 1 = 1 := by decide
+  simp [lbl, normalizeLabel, this]
+
+/-- overwriting the value stored under the exact key `lbl 1` by a typed algorithm keeps a valid
+    bucket valid -/
+theorem validate_retype_alg (m0 : GoMap) (prot : Bool) (a : Int)
+    (hv : validateHeaderParameters m0 prot = true) :
+    validateHeaderParameters
+      (m0.map (fun e => if e.1.keyEq (lbl 1) then (e.1, GoVal.alg a) else e)) prot = true := by
+  have hnl : normLabels (m0.map (fun e => if e.1.keyEq (lbl 1) then (e.1, GoVal.alg a) else e))
+      = normLabels m0 := by
+    unfold normLabels
+    rw [List.map_map]
+    apply List.map_congr_left
+    intro e _
+    simp only [Function.comp]
+    split <;> rfl
+  rw [validate_iff] at hv ⊢
+  obtain ⟨hok, hall⟩ := hv
+  refine ⟨?_, ?_⟩
+  · rw [labelsOK_iff_normLabels] at hok ⊢
+    rw [hnl]; exact hok
+  · intro e' he'
+    obtain ⟨e, he, rfl⟩ := List.mem_map.mp he'
+    obtain ⟨l, h1, h2⟩ := hall e he
+    have hcongr : ∀ l v, checkParam
+        (m0.map (fun e => if e.1.keyEq (lbl 1) then (e.1, GoVal.alg a) else e)) prot l v
+        = checkParam m0 prot l v :=
+      fun l v => checkParam_congr _ _
+        (fun l' hl' => hasLabel_congr_norm _ _ hnl l' l' rfl hl') prot l v
+    by_cases hk : e.1.keyEq (lbl 1) = true
+    · simp only [hk, if_true]
+      have heq : e.1 = lbl 1 :=
+        eq_of_keyEq_of_normalizes' (by simp [lbl, normalizeLabel]) hk
+      rw [heq] at h1
+      have hl : l = .int .i64 1 := by
+        rw [normalize_lbl1] at h1
+        exact (Option.some.inj h1).symm
+      refine ⟨l, by rw [heq]; exact h1, ?_⟩
+      rw [hcongr, hl]
+      simp [checkParam]
+    · simp only [hk, Bool.false_eq_true, if_false]
+      exact ⟨l, h1, by rw [hcongr]; exact h2⟩
+
+/-- for a bucket whose keys are in normal form, an algorithm that `Algorithm()` finds is stored
+    under the exact key `lbl 1` -/
+theorem has_alg_of_found {m0 : GoMap} {a : Int} (hkn : ∀ e ∈ m0, KeyNormal e.1)
+    (hf : algorithmOf m0 = .found a) : m0.has (lbl 1) = true := by
+  have hhas : hasLabel m0 (lbl 1) = true := by
+    unfold hasLabel
+    unfold algorithmOf at hf
+    cases hlk : lookupLabel m0 (lbl 1) with
+    | none => simp [hlk] at hf
+    | some x => rfl
+  obtain ⟨e, he, hne⟩ := (hasLabel_norm' m0 (lbl 1) (lbl 1) normalize_lbl1).mp hhas
+  have heq : e.1 = lbl 1 := by
+    rcases hkn e he with h | h
+    · rw [h] at hne; cases hne
+    · rw [h] at hne; exact Option.some.inj hne
+  unfold GoMap.has GoMap.lookup
+  cases hfind : m0.find? (fun e => e.1.keyEq (lbl 1)) with
+  | some x => rfl
+  | none =>
+    rw [List.find?_eq_none] at hfind
+    have := hfind e he
+    rw [heq] at this
+    exact absurd (by simp [lbl, GoVal.keyEq] : (lbl 1).keyEq (lbl 1) = true) this
+
+/-- decoded maps have only in-range `int64` / text keys, so the alg retyping of the protected
+    decoder overwrites in place and keeps the bucket valid -/
+theorem castAlg_valid {m0 : GoMap} (hkn : ∀ e ∈ m0, KeyNormal e.1)
+    (hv : validateHeaderParameters m0 true = true) :
+    validateHeaderParameters (castAlg m0) true = true := by
+  unfold castAlg
+  split
+  · rename_i a hf
+    have hh := has_alg_of_found hkn hf
+    unfold GoMap.set
+    rw [if_pos hh]
+    exact validate_retype_alg m0 true a hv
+  · exact hv
+
+theorem castAlg_keys {m0 : GoMap} (hkn : ∀ e ∈ m0, KeyNormal e.1) :
+    ∀ e ∈ castAlg m0, ∃ e0 ∈ m0, e.1 = e0.1 := by
+  unfold castAlg
+  split
+  · rename_i a hf
+    have hh := has_alg_of_found hkn hf
+    unfold GoMap.set
+    rw [if_pos hh]
+    intro e he
+    obtain ⟨e0, he0, rfl⟩ := List.mem_map.mp he
+    refine ⟨e0, he0, ?_⟩
+    split <;> rfl
+  · intro e he; exact ⟨e, he, rfl⟩
+
+/-- every key of a decoded protected map is an in-range `int64` or a text string -/
+theorem decoded_keys_normal (enc : Bytes) (m : GoMap) (h : decProtectedContent enc = .ok m) :
+    ∀ e ∈ m, (∃ v, e.1 = GoVal.int .i64 v ∧ wrap64 v = v) ∨ ∃ b, e.1 = GoVal.str b := by
+  rcases decProtectedContent_ok h with ⟨-, rfl⟩ | ⟨hw, kvs, m0, -, hd, hv, rfl⟩
+  · intro e he; cases he
+  · have hkn := decodePairs_keys_normal kvs [] m0 hd (by intro e he; cases he)
+    intro e he
+    obtain ⟨e0, he0, heq⟩ := castAlg_keys hkn e he
+    have hne := (validate_labels m0 true hv).1 e0 he0
+    have hself : normalizeLabel e0.1 = some e0.1 := by
+      rcases hkn e0 he0 with h' | h'
+      · exact absurd h' hne
+      · exact h'
+    rw [heq]
+    cases hk : e0.1 with
+    | int k v =>
+      rw [hk] at hself
+      simp only [normalizeLabel, Option.some.injEq, GoVal.int.injEq] at hself
+      exact .inl ⟨v, by rw [← hself.1], hself.2⟩
+    | str b => exact .inr ⟨b, rfl⟩
+    | _ => rw [hk] at hself; simp [normalizeLabel] at hself
+
+/-- direction symmetry, decode ⇒ encode: a protected header set accepted by the decoder is
+    accepted by the encoder's validation too -/
+theorem decoded_reencodable (enc : Bytes) (m : GoMap) (h : decProtectedContent enc = .ok m) :
+    validateHeaderParameters m true = true := by
+  rcases decProtectedContent_ok h with ⟨-, rfl⟩ | ⟨hw, kvs, m0, -, hd, hv, rfl⟩
+  · rfl
+  · exact castAlg_valid
+      (decodePairs_keys_normal kvs [] m0 hd (by intro e he; cases he)) hv
+
+end C13
+
+/-! ### the hypotheses are satisfiable -/
+namespace VerifiesExamples
+open C01 (exU exV7 ex_decP ex_decU)
+
+/-- the protected bucket `{1: -7}` sent with a NON-shortest (one-byte) length head -/
+def exPw : Wire := .bstr .w1 [0xa1, 0x01, 0x26]
+
+theorem ex_decPw : decProtected exPw = .ok [(lbl 1, .alg (-7))] := ex_decP
+
+/-- a COSE_Sign1 whose protected bucket uses a non-preferred head: decoded, and verified against
+    the RFC Sig_structure over the CONTENT `a1 01 26` -/
+example : ∃ m, Sign1.unmarshal true
+      ([0xd2] ++ (Wire.arr .imm [exPw, exU, .bstr .imm [1, 2, 3], .bstr .w2 [7]]).bytes) = .ok m ∧
+    (Sign1.verify m none exV7).1 = .ok () :=
+  C07.wf_sign1_verifies true (hwp := .w1) (hwpl := .imm)
+    (by simp [Wire.wf, Wire.wfList, Wire.wfPairs, HW.fits, exPw, exU])
+    (by simp [Wire.inLimits, Wire.inLimitsList, Wire.inLimitsPairs, exPw, exU, maxNested, maxElems])
+    ex_decPw ex_decU (by decide) rfl rfl (by decide) none exV7 (by rfl) (by simp [exV7])
+
+/-- the same with a detached payload -/
+example : ∃ m, Sign1.unmarshal false
+      (Wire.arr .imm [exPw, exU, .prim .imm 22, .bstr .imm [7]]).bytes = .ok m ∧
+    m.payload = none ∧ (Sign1.verify { m with payload := some [1, 2, 3] } none exV7).1 = .ok () := by
+  have := C07.wf_sign1_detached_verifies false (hw := .imm) (hwp := .w1) (c := [7])
+    (p := exPw) (u := exU) (pl := .prim .imm 22)
+    (by simp [Wire.wf, Wire.wfList, Wire.wfPairs, HW.fits, exPw, exU])
+    (by simp [Wire.inLimits, Wire.inLimitsList, Wire.inLimitsPairs, exPw, exU, maxNested, maxElems])
+    ex_decPw ex_decU (by decide) rfl rfl (by decide) [1, 2, 3] none exV7 (by rfl) (by simp [exV7])
+  simpa using this
+
+/-- a signer entry with a non-shortest protected head inside a COSE_Sign whose body protected
+    bucket is the 9-byte spelling of the empty byte string -/
+example : ∃ s, Signature.unmarshal (Wire.arr .imm [exPw, exU, .bstr .imm [7]]).bytes = .ok s ∧
+    (Signature.verify s exV7 [0x5b, 0, 0, 0, 0, 0, 0, 0, 0] (some [1, 2, 3]) none).1 = .ok () :=
+  C07.wf_signature_verifies (hwp := .w1)
+    (by simp [Wire.wf, Wire.wfList, Wire.wfPairs, HW.fits, exPw, exU])
+    (by simp [Wire.inLimits, Wire.inLimitsList, Wire.inLimitsPairs, exPw, exU, maxNested, maxElems])
+    ex_decPw ex_decU (by decide) rfl (by decide) _ [] [1, 2, 3] ⟨.w8, by decide, rfl⟩ none exV7
+    (by rfl) (by simp [exV7])
+
+end VerifiesExamples
